@@ -320,8 +320,8 @@ class Evaluator(object):
                 except Unfoldable:
                     pass
             self.err(e, 'abstract object lacks attribute')
-        if isinstance(base, RegexConst) and e.attr in ('match', 'sub',
-                                                       'search'):
+        if isinstance(base, RegexConst) and e.attr in (
+                'match', 'sub', 'search', 'split', 'findall', 'fullmatch'):
             return ('regex', base, e.attr)
         if isinstance(base, str) and e.attr in (
                 'startswith', 'endswith', 'strip', 'join', 'format', 'lower',
@@ -499,7 +499,12 @@ class Evaluator(object):
             if n == 'bool' and n not in env:
                 return self.truth(self.expr(e.args[0], env), e)
         f = self.expr(e.func, env)
-        args = [self.expr(a, env) for a in e.args]
+        args = []
+        for a in e.args:
+            if isinstance(a, ast.Starred):
+                args.extend(list(self.expr(a.value, env)))
+            else:
+                args.append(self.expr(a, env))
         kwargs = {k.arg: self.expr(k.value, env) for k in e.keywords}
         if isinstance(f, tuple) and f[0] == 'method':
             ret, ys = self.call(f[1], args, kwargs, self_obj=f[2])
